@@ -69,6 +69,7 @@ class Cat(Metric[torch.Tensor]):
     @torch.inference_mode()
     # pyre-ignore[14]: inconsistent override on *_:Any, **__:Any
     def update(self: TCat, input: torch.Tensor) -> TCat:
+        input = input.detach()
         self.inputs.append(input)
         return self
 
